@@ -62,6 +62,9 @@ type (
 		// before a crash), so they cannot be trusted anymore. 0, which is what a snapshot written
 		// before the field existed provides, means unknown.
 		Recs uint32
+		// loaded is true for what was read from the snapshot file, until it is compared with the chunk
+		// itself (syncChunks) or the chunk is written (onWrite). Only such an entry can be stale.
+		loaded bool
 
 		// the rwLock is used to access to the ckIndex and it guards
 		// the following fields - IdxRoot, lastRec, idxCorrupted.
@@ -150,7 +153,14 @@ func (ci *cindex) onWrite(src string, firstRec, lastRec uint32, rInfo RecordsInf
 		ci.journals[src] = sc
 		newChk = true
 	} else if ok {
-		sc[len(sc)-1].update(rInfo)
+		last := sc[len(sc)-1]
+		if last.loaded && firstRec > last.Recs {
+			// the snapshot does not account for the records in front of the batch: the chunk has grown
+			// since it was taken, so it is handled as a chunk which is notified from the middle
+			newChk = true
+		}
+		last.loaded = false
+		last.update(rInfo)
 	}
 
 	last := sc[len(sc)-1]
@@ -587,7 +597,12 @@ func (ci *cindex) syncChunks(ctx context.Context, src string, cks chunk.Chunks) 
 		// what is known about a chunk which has grown since, is dropped: the chunk is then
 		// handled as any chunk the index has not heard about yet
 		sc, stale = sc.dropStale(cks)
-		ci.journals[src] = sc
+		if len(sc) > 0 {
+			ci.journals[src] = sc
+		} else {
+			// onWrite() expects a known partition to have at least one chunk
+			delete(ci.journals, src)
+		}
 		// re-assignment cause apply can re-allocate original slice
 		newSC, _ = newSC.apply(sc, true)
 	}
@@ -730,6 +745,11 @@ func (ci *cindex) loadDataFromFile() {
 		ci.logger.Warn("loadDataFromFile(): could not unmarshal data. err=", err)
 		return
 	}
+	for _, sc := range ci.journals {
+		for _, c := range sc {
+			c.loaded = true
+		}
+	}
 	ci.logger.Info("successfully read information about ", len(ci.journals), " journals from ", ci.dtFileName)
 }
 
@@ -809,9 +829,12 @@ func (sc sortedChunks) dropStale(cks chunk.Chunks) (sortedChunks, sortedChunks) 
 	for _, c := range sc {
 		for ; j < len(cks) && cks[j].Id() < c.Id; j++ {
 		}
-		if j < len(cks) && cks[j].Id() == c.Id && cks[j].Count() > c.Recs {
-			stale = append(stale, c)
-			continue
+		if j < len(cks) && cks[j].Id() == c.Id {
+			if c.loaded && cks[j].Count() > c.Recs {
+				stale = append(stale, c)
+				continue
+			}
+			c.loaded = false
 		}
 		res = append(res, c)
 	}
